@@ -61,6 +61,12 @@ def run(chk):
         if ns <= 2:
             ex += A.gen_exhaustive(ns, nd, "late")
         chk.count(f"exhaustive.senders={ns}.drains={nd}", 0)
+    # post_stop family: the actor is allowed to run in the middle (one `run` token in every position) and the
+    # target's post_stop releases every parked sender, so a sender admitted before the drain can complete between
+    # a (premature) loop exit and the drop of the ports
+    for ns, nd in ((1, 1), (1, 2), (2, 1), (2, 2)):
+        ex += A.gen_exhaustive(ns, nd, "plain", blocks=("run",), ps=tuple(range(ns)))
+    ex += A.gen_exhaustive(1, 1, "plain", blocks=("run", "run"), ps=(0,))
     res = A.run_scenarios(chk, build, ex, "C07e")
     verdicts(chk, res, "exhaustive", distinct)
     chk.count("exhaustive.scenarios", len(ex))
@@ -102,6 +108,8 @@ def run(chk):
         "exhaustive: every interleaving of {start_i, release_i} of 1..3 sender threads parked inside the send path "
         "(box_message door: ticket taken, not yet enqueued) with 1..2 drain() calls, in variants plain / re-entrant drain "
         "from box_message / re-entrant send from box_message / an extra un-gated send, each followed by run, a late send, run; "
+        "post_stop family: 1..2 senders x 1..2 drains with the actor run at every intermediate position and the target's "
+        "post_stop releasing the parked senders; "
         "random: seeded structured scenarios (gated threads, handler scripts with self-sends/drain/stop/kill, wrong type, "
         "failing box/handler, drains at every phase, repeated drains); stress: uncontrolled OS threads racing a double drain "
         "(oracle only). non-trivial = at least one send and one drain; distinct = distinct scenario texts. "
